@@ -39,7 +39,7 @@ EVIDENCE = {
 
 LE_PROCS = ['gatt_read', 'gatt_long_read', 'gatt_write', 'gatt_discover_services', 'gatt_discover_all', 'gatt_subscribe', 'gatt_indicate', 'pair',
             'coc_connect', 'coc_disconnect', 'coc_write_drain', 'connect_le_pending', 'disconnect_pending', 'hci_command', 'eatt_subscribe', 'encrypt',
-            'gatt_notify_then_read', 'remote_features', 'update_parameters_l2cap', 'cis_create', 'cis_disconnect']
+            'gatt_notify_then_read', 'remote_features', 'update_parameters_l2cap', 'cis_create', 'cis_disconnect', 'eatt_bearer_close']
 CLASSIC_PROCS = ['classic_connect_pending', 'classic_remote_features', 'classic_remote_name', 'classic_connect', 'classic_disconnect', 'ertm_transfer', 'rfcomm_start', 'rfcomm_open_dlc', 'rfcomm_transfer', 'sdp_query', 'avdtp_discover',
                  'sco_setup', 'sco_disconnect', 'rfcomm_shutdown_drain']
 FAULTS = ['local_disconnect', 'remote_disconnect', 'link_loss_both', 'transport_loss_initiator', 'transport_loss_responder', 'power_off_initiator', 'power_off_responder']
@@ -158,6 +158,18 @@ def _build(sim, case):
         ch = next(c for s in peer.services for c in s.characteristics if c.handle == long_char.handle)
         cccd = next(d for d in ch.descriptors if d.type == gatt.GATT_CLIENT_CHARACTERISTIC_CONFIGURATION_DESCRIPTOR)
         cx.start = lambda: [('eatt.write_value(cccd)', eclient.write_value(cccd.handle, b'\x02\x00', with_response=True))]
+    elif proc == 'eatt_bearer_close':
+        # an enhanced bearer with a subscription is closed (its L2CAP channel only); the connection goes away during or after that
+        from bumble.gatt_client import Client as GattClient
+        d1.gatt_server.register_eatt()
+        peer = Peer(c0)
+        sim.must(peer.discover_all(), 'discover')
+        eclient = sim.must(GattClient.connect_eatt(c0), 'eatt')
+        ch = next(c for s in peer.services for c in s.characteristics if c.handle == long_char.handle)
+        cccd = next(d for d in ch.descriptors if d.type == gatt.GATT_CLIENT_CHARACTERISTIC_CONFIGURATION_DESCRIPTOR)
+        sim.must(eclient.write_value(cccd.handle, b'\x02\x00', with_response=True), 'subscribe over eatt')
+        sim.loop.settle(vt_budget=1.0)
+        cx.start = lambda: [('eatt bearer.disconnect', eclient.bearer.disconnect())]
     elif proc == 'encrypt':
         from bumble.keys import MemoryKeyStore
         d0.keystore, d1.keystore = MemoryKeyStore(), MemoryKeyStore()
@@ -366,7 +378,7 @@ FAMILY = {'gatt_read': 'gatt', 'gatt_long_read': 'gatt', 'gatt_write': 'gatt', '
           'gatt_subscribe': 'gatt-subscribe', 'gatt_indicate': 'gatt-indicate', 'pair': 'pair', 'coc_connect': 'coc', 'coc_disconnect': 'coc', 'coc_write_drain': 'coc',
           'connect_le_pending': 'connect', 'disconnect_pending': 'disconnect', 'hci_command': 'hci', 'classic_connect': 'classic-l2cap',
           'classic_disconnect': 'classic-l2cap', 'ertm_transfer': 'classic-l2cap', 'rfcomm_start': 'rfcomm', 'rfcomm_open_dlc': 'rfcomm', 'rfcomm_transfer': 'rfcomm',
-          'sdp_query': 'sdp', 'avdtp_discover': 'avdtp', 'sco_setup': 'sco', 'sco_disconnect': 'sco', 'cis_create': 'cis', 'cis_disconnect': 'cis', 'rfcomm_shutdown_drain': 'rfcomm', 'eatt_subscribe': 'eatt', 'encrypt': 'pair', 'gatt_notify_then_read': 'gatt',
+          'sdp_query': 'sdp', 'avdtp_discover': 'avdtp', 'sco_setup': 'sco', 'sco_disconnect': 'sco', 'cis_create': 'cis', 'cis_disconnect': 'cis', 'rfcomm_shutdown_drain': 'rfcomm', 'eatt_subscribe': 'eatt', 'eatt_bearer_close': 'eatt', 'encrypt': 'pair', 'gatt_notify_then_read': 'gatt',
           'remote_features': 'hci', 'classic_remote_features': 'hci', 'classic_connect_pending': 'connect', 'classic_remote_name': 'hci', 
           'update_parameters_l2cap': 'le-signalling'}
 
